@@ -35,13 +35,14 @@ import (
 // value before and the value after the block are both tolerated.
 
 type sink struct {
-	op    string                                // attribution of judgements that concern no single validator
-	opOf  func(addr string, freeze bool) string // attribution of judgements about one validator: the operation that last changed its record or freeze flag
-	viol  []explore.BFSViol
-	seen  map[string]bool
-	info  map[string]int64
-	tags  map[string]bool
-	trace func(format string, a ...interface{}) // replay mode: print verdicts
+	minVotes, window int64                                 // evidence options of the world (missed-votes rule)
+	op               string                                // attribution of judgements that concern no single validator
+	opOf             func(addr string, freeze bool) string // attribution of judgements about one validator: the operation that last changed its record or freeze flag
+	viol             []explore.BFSViol
+	seen             map[string]bool
+	info             map[string]int64
+	tags             map[string]bool
+	trace            func(format string, a ...interface{}) // replay mode: print verdicts
 }
 
 func newSink() *sink {
@@ -125,9 +126,19 @@ func haltClass(err error) string {
 
 // flaggedNow: frozen for missed votes in the BeginBlock of height h (record written by
 // CheckMaliciousValidators before the election of the same block).
-func flaggedNow(cur *stkview.View, addr string, h int64) bool {
+// The freeze record alone is not enough: a verdict reached in the EndBlock of the same height
+// overwrites it (status 2, same height). So the rule itself is evaluated too (the statement does not
+// define "flagged malicious"; this is the rule of identity/validator_set_allegation.go): above the
+// window height, a validator with fewer than the required signatures in the cumulative count written
+// by this block's BeginBlock, whose status was active for at least one window.
+func (s *sink) flaggedNow(prev, cur *stkview.View, addr string, h int64) bool {
 	f := cur.Frozen[addr]
-	return f != nil && f.Frozen && f.Status == 1 && f.FrozenHeight == h
+	if f != nil && f.Frozen && f.Status == 1 && f.FrozenHeight == h {
+		return true
+	}
+	n, counted := cur.Votes[addr]
+	st := prev.Status[addr]
+	return h > s.window && counted && n < s.minVotes && st != nil && st.Active && st.Height+s.window <= h
 }
 
 // checkBlock judges the updates of block h. prev/cur are the decoded states after h-1 and h.
@@ -178,7 +189,7 @@ func checkBlock(s *sink, h int64, prev, cur *stkview.View, ups []abci.ValidatorU
 			if prev.IsFrozen(r.Addr) {
 				bad = append(bad, "frozen")
 			}
-			if flaggedNow(cur, r.Addr, h) {
+			if s.flaggedNow(prev, cur, r.Addr, h) {
 				bad = append(bad, "flagged-missed-votes")
 			}
 			if big.NewInt(u.Power).Cmp(r.Staking) != 0 {
@@ -207,7 +218,7 @@ func checkBlock(s *sink, h int64, prev, cur *stkview.View, ups []abci.ValidatorU
 	var eligible []*stkview.ValRec
 	for _, a := range prev.ValAddrs() {
 		r := prev.Vals[a]
-		if r.Staking.Cmp(minHi) >= 0 && !prev.IsFrozen(a) && !flaggedNow(cur, a, h) {
+		if r.Staking.Cmp(minHi) >= 0 && !prev.IsFrozen(a) && !s.flaggedNow(prev, cur, a, h) {
 			eligible = append(eligible, r)
 		}
 	}
